@@ -241,6 +241,16 @@ create_proc_dir(const char *loom, int pid)
 		rproc.move_to_final = 1;
 		mkdir_proc(rproc.procdir, tmpdir, loom, pid);
 		mkdir_proc(rproc.procdir_final, tracedir, loom, pid);
+
+		/* When both are the same directory the streams are already
+		 * in place: copying a stream onto itself would destroy it */
+		struct stat st_tmp, st_final;
+		if (stat(rproc.procdir, &st_tmp) != 0)
+			die("stat %s failed:", rproc.procdir);
+		if (stat(rproc.procdir_final, &st_final) != 0)
+			die("stat %s failed:", rproc.procdir_final);
+		if (st_tmp.st_dev == st_final.st_dev && st_tmp.st_ino == st_final.st_ino)
+			rproc.move_to_final = 0;
 	} else {
 		rproc.move_to_final = 0;
 		mkdir_proc(rproc.procdir, tracedir, loom, pid);
